@@ -236,6 +236,15 @@ PROPS["C16"] = {
          "quick": ["c16::c16_cbox_view", "c16::c16_carc_view", "c16::c16_slices_u8", "c16::c16_slices_t3", "c16::c16_cvec_u64_spare",
                    "c16::c16_callback_view", "c16::c16_citerator_view", "c16::c16_views_made_by_c", "c16::c16_tags"],
          "rustflags": _LAYOUT_SEED_FLAGS, "timeout": 1200},
+        # thorough: two more layout seeds
+        {"id": "views_layout_seed_b",
+         "thorough": ["c16::c16_cbox_view", "c16::c16_carc_view", "c16::c16_slices_u8", "c16::c16_slices_t3", "c16::c16_cvec_u64_spare",
+                      "c16::c16_callback_view", "c16::c16_citerator_view", "c16::c16_views_made_by_c", "c16::c16_tags"],
+         "rustflags": _LAYOUT_SEED_FLAGS.replace("layout-seed=", "layout-seed=7"), "timeout": 1200},
+        {"id": "views_layout_seed_c",
+         "thorough": ["c16::c16_cbox_view", "c16::c16_carc_view", "c16::c16_slices_u8", "c16::c16_slices_t3", "c16::c16_cvec_u64_spare",
+                      "c16::c16_callback_view", "c16::c16_citerator_view", "c16::c16_views_made_by_c", "c16::c16_tags"],
+         "rustflags": _LAYOUT_SEED_FLAGS.replace("layout-seed=", "layout-seed=13"), "timeout": 1200},
     ],
     "negative": ["c16::c16_negative_twin"],
     "bounds": "each runtime wrapper reinterpreted as its C view (views for CBox, CArc, CSliceRef, Callback, CIterator generated from "
